@@ -200,6 +200,7 @@ def r2_components(ctx, g, handlers):
         others = [it for it in items if it[0] in ('many', 'unknown', 'copy') and it not in dots]
         okd = okd and len(dots) == 1 and not others
     ctx.check(okd and n_paths > 0, 'R2', ed.loc, ed.qualname, 'one-subtoken-per-dot', 'one duration sub-token per augmentation dot')
+    check_duration_figure(ctx, 'R2', ed)
     # the alteration is appended when present; the pitch always
     en = handlers['note']['exit']
     oka = True
@@ -288,6 +289,29 @@ def r2_components(ctx, g, handlers):
 
 
 TOKEN_CLASSES_NOTE = {'NoteRestToken', 'ChordToken', 'BarToken', 'BoundingBox'}
+
+
+def check_duration_figure(ctx, rule, ed=None):
+    """The duration figure is kept as written: the first duration sub-token carries the text of the modernDuration child itself."""
+    if ed is None:
+        from . import c01 as _c01
+        ed = ctx.prog.find_method(ctx.prog.cls(_c01.LST), 'exitDuration')
+        if ed is None:
+            raise AnalysisError('anchor vanished: exitDuration')
+    n_paths = len(F.list_content(ed, 'self.duration_subtokens'))
+    okfig = n_paths > 0
+    got_fig = set()
+    for cond, items, sp in F.list_content(ed, 'self.duration_subtokens'):
+        first = items[0] if items else None
+        texts = None
+        if first is not None and first[0] == 'one' and isinstance(first[1], ast.Call) and F.is_name(first[1].func, 'Subtoken') and first[1].args:
+            texts = src(first[1].args[0])
+        got_fig.add(str(texts)[:60])
+        okfig = okfig and texts == 'ctx.modernDuration().getText()'
+    ctx.check(okfig, rule, ed.loc, ed.qualname, 'duration-figure-verbatim',
+              'the duration figure sub-token carries ctx.modernDuration().getText() unchanged',
+              f'the duration figure sub-token carries {sorted(got_fig)[:2]}: the figure is rewritten (reduced, normalised) on import, so the '
+              f'export differs from the source and a second import/export differs again')
 
 
 def r3_verbatim(ctx, handlers):
